@@ -222,6 +222,21 @@ def r05_3(rep, M, rid, strict=True, T=None):
             rep.violation(rid, "homogeneous coordinates result", "the fourth (homogeneous) column is not dropped", M.where(GS, E))
     else:
         # block form: X . R^T + t with R = T[:3, :3], t = T[:3, 3]
+        if not posnames:
+            # the scaled positions are read inline: give the call a name so that the affine normal form can be taken in it
+            class _Inline(ast.NodeTransformer):
+                hit = 0
+
+                def visit_Call(self, node):
+                    if isinstance(node.func, ast.Attribute) and node.func.attr == "get_scaled_positions" and norm(node.func.value) == sysparam:
+                        _Inline.hit += 1
+                        return ast.copy_location(ast.Name(id="scaled_positions_of_the_standardised_system", ctx=ast.Load()), node)
+                    return self.generic_visit(node)
+            import copy as _copy
+            cur2 = _Inline().visit(_copy.deepcopy(cur))
+            if _Inline.hit == 1:
+                cur0, cur = cur, cur2
+                posnames = {"scaled_positions_of_the_standardised_system"}
         if len(posnames) != 1:
             raise AnalysisError("_find_wyckoff_ground_state: application of the transformation not recognised (neither homogeneous nor block form)")
         xname = next(iter(posnames))
